@@ -6,6 +6,8 @@
 // ordinary Go.
 package verifrt
 
+import "reflect"
+
 // Failure is one failed Assert recorded during a replay.
 type Failure struct{ Label string }
 
@@ -134,3 +136,17 @@ func Disjoint[T any](a, b []T) bool {
 func Ghost1[A, R any](name string, a A) R {
 	panic(AssumeFailed{})
 }
+
+// ModifiesContents declares that the called function may write the elements
+// of a slice or the entries of a map.
+func ModifiesContents[T any](c T) {}
+
+// SameRef reports whether two maps, slices, channels or functions are the
+// same object (reference identity).
+func SameRef[T any](a, b T) bool {
+	return reflect.ValueOf(a).Pointer() == reflect.ValueOf(b).Pointer()
+}
+
+// ForallAny is Forall for axioms about ghost functions: it ranges over every
+// reference, whether allocated yet or not.
+func ForallAny[T any](f func(T) bool) bool { return Forall(f) }
